@@ -11,6 +11,7 @@ mod controlsim;
 mod framework;
 mod lin;
 mod migsim;
+mod proxysim;
 mod slots;
 mod simnet;
 mod simredis;
@@ -34,6 +35,9 @@ static C07: controlsim::ControlCheck = controlsim::ControlCheck { prop: "C07" };
 static C13L: controlsim::ControlCheck = controlsim::ControlCheck { prop: "C13" };
 static C02: routesim::RouteCheck = routesim::RouteCheck { prop: "C02" };
 static C14: routesim::RouteCheck = routesim::RouteCheck { prop: "C14" };
+static C05: proxysim::ProxyCheck = proxysim::ProxyCheck { prop: "C05" };
+static C09: proxysim::ProxyCheck = proxysim::ProxyCheck { prop: "C09" };
+static C20: proxysim::ProxyCheck = proxysim::ProxyCheck { prop: "C20" };
 static C11: shuttle_eng::ShuttleCheck = shuttle_eng::ShuttleCheck { prop: "C11" };
 
 static C13E1: broker::BrokerCheck = broker::BrokerCheck { prop: "C13" };
@@ -60,6 +64,9 @@ fn lookup(id: &str) -> Option<&'static dyn Check> {
         "C13" => c13(),
         "C18" => &C18,
         "C11" => &C11,
+        "C05" => &C05,
+        "C09" => &C09,
+        "C20" => &C20,
         "C02" => &C02,
         "C14" => &C14,
         "C07" => &C07,
